@@ -88,7 +88,7 @@ func (m *Model) validateUpdate(fanSpeed *traits.FanSpeed) error {
 func (m *Model) DeriveValues(old, new proto.Message) {
 	oldVal := old.(*traits.FanSpeed)
 	newVal := new.(*traits.FanSpeed)
-	if oldVal.Preset != newVal.Preset {
+	if newVal.Preset != "" && oldVal.Preset != newVal.Preset {
 		// preset updated, keep the index and percentage in sync
 		for i, preset := range m.presets {
 			if preset.Name == newVal.Preset {
@@ -114,7 +114,7 @@ func (m *Model) DeriveValues(old, new proto.Message) {
 		return
 	}
 
-	if oldVal.Percentage != newVal.Percentage {
+	if oldVal.Percentage != newVal.Percentage || newVal.Preset == "" {
 		// try to find a preset that matches, and update the index and preset
 		newVal.PresetIndex = -1
 		newVal.Preset = ""
